@@ -18,6 +18,18 @@ assert str(REPO).startswith("/work/repo-"), "refusing to mutate anything but a s
 
 V17 = "src/spox/opset/ai/onnx/v17.py"
 MUT = {
+    "C11-repeat": {
+        "trim-end-located-by-name-lookup": [("src/spox/_node.py", "        while len(input_names) > self.min_input and not input_names[-1]:\n            input_names.pop()\n", "        _used = [n for n in input_names if n]\n        _end = input_names.index(_used[-1]) + 1 if _used else 0\n        input_names = input_names[: max(_end, min(self.min_input, len(input_names)))]\n")],
+        "inputs-deduplicated-by-var": [("src/spox/_node.py", "        input_names = [scope.var[var] if var is not None else \"\" for var in self.inputs]\n", "        _names = {}\n        for var in self.inputs:\n            _names.setdefault(id(var) if var is not None else object(), scope.var[var] if var is not None else '')\n        input_names = list(_names.values())\n")],
+    },
+    "C18-compose": {
+        # the Builder starts to care about the node's class: only StandardNode applications are relaxed to the LCA
+        "scope-relaxation-only-for-standard-nodes": [("src/spox/_build.py", "            self.scope_tree.scope_of[node] = self.scope_tree.lca(\n                graph, self.scope_tree.scope_of[node]\n            )\n", "            if type(node).__mro__[1].__name__ != 'Node':  # only non-plain nodes are relaxed\n                self.scope_tree.scope_of[node] = self.scope_tree.lca(\n                    graph, self.scope_tree.scope_of[node]\n                )\n")],
+    },
+    "C18-repeat": {
+        "inputs-deduplicated-by-var": [("src/spox/_node.py", "        input_names = [scope.var[var] if var is not None else \"\" for var in self.inputs]\n", "        _names = {}\n        for var in self.inputs:\n            _names.setdefault(id(var) if var is not None else object(), scope.var[var] if var is not None else '')\n        input_names = list(_names.values())\n")],
+        "trim-end-located-by-name-lookup-ignoring-min": [("src/spox/_node.py", "        while len(input_names) > self.min_input and not input_names[-1]:\n            input_names.pop()\n", "        _used = [n for n in input_names if n]\n        _end = input_names.index(_used[-1]) + 1 if _used else 0\n        input_names = input_names[: _end if _used and input_names[-1] else len(input_names)]\n")],
+    },
     "C11": {
         "B13-reducesum-keepdims-default": [(V17, "def reduce_sum(\n    data: Var,\n    axes: Optional[Var] = None,\n    *,\n    keepdims: int = 1,",
                                             "def reduce_sum(\n    data: Var,\n    axes: Optional[Var] = None,\n    *,\n    keepdims: int = 0,")],
